@@ -22,6 +22,18 @@ PY = "/venv/bin/python"
 NCPU = min(16, os.cpu_count() or 4)
 
 
+def ncpu():
+    """Workers to use now: all cores when the machine is idle, fewer when other checks are running (several checks
+    are developed and run concurrently in this sandbox; oversubscription made everything crawl)."""
+    try:
+        load = os.getloadavg()[0]
+    except OSError:
+        load = 0.0
+    if "VERIF_NCPU" in os.environ:
+        return max(1, int(os.environ["VERIF_NCPU"]))
+    return max(3, min(NCPU, int(NCPU - load / 2)))
+
+
 class Machinery(Exception):
     """The harness itself failed (exit 2). Never reported as a violation."""
 
@@ -183,10 +195,10 @@ def tlc(module, cfg, wd, env=None, workers=None, timeout=1800, coverage=False, s
         f.write(cfg)
     meta = os.path.join(wd, "meta_" + module)
     shutil.rmtree(meta, ignore_errors=True)
-    cmd = ["java", "-XX:+UseParallelGC", "-Xmx12g", "-Xss16m"]
+    cmd = ["java", "-XX:+UseParallelGC", "-Xmx6g", "-Xss16m"]
     if depth_first:
         cmd.append("-Dtlc2.tool.queue.IStateQueue=StateDeque")
-    cmd += ["-cp", JAR, "tlc2.TLC", "-workers", str(workers or NCPU), "-metadir", meta, "-noGenerateSpecTE",
+    cmd += ["-cp", JAR, "tlc2.TLC", "-workers", str(workers or ncpu()), "-metadir", meta, "-noGenerateSpecTE",
             "-config", cfgp]
     if coverage:
         cmd += ["-coverage", "1"]
@@ -269,7 +281,7 @@ def pool_map(fn_mod, fn_name, items, procs=None, extra_paths=None, chunksize=Non
     items = list(items)
     if not items:
         return []
-    procs = procs or NCPU
+    procs = procs or ncpu()
     ctx = multiprocessing.get_context("spawn")
     sys.dont_write_bytecode = True
     paths = [os.path.join(VERIF, "harness")] + list(extra_paths or [])
